@@ -5,19 +5,19 @@ Open Scope N_scope.
 (* residual spec automaton derived from Table 3-7: state = what must follow *)
 Definition guard (s b : N) : bool :=
   match s with
-  | 0 => (b <=? 127) || inr 194 244 b
+  | 0 => (b <=? 127) || in_rng 194 244 b
   | 24 => cont b | 36 => cont b | 84 => cont b
-  | 48 => inr 160 191 b
-  | 60 => inr 128 159 b
-  | 72 => inr 144 191 b
-  | 96 => inr 128 143 b
+  | 48 => in_rng 160 191 b
+  | 60 => in_rng 128 159 b
+  | 72 => in_rng 144 191 b
+  | 96 => in_rng 128 143 b
   | _ => false
   end.
 Definition next (s b : N) : N :=
   match s with
-  | 0 => if b <=? 127 then 0 else if inr 194 223 b then 24 else if b =? 224 then 48
-         else if inr 225 236 b || inr 238 239 b then 36 else if b =? 237 then 60
-         else if b =? 240 then 72 else if inr 241 243 b then 84 else 96
+  | 0 => if b <=? 127 then 0 else if in_rng 194 223 b then 24 else if b =? 224 then 48
+         else if in_rng 225 236 b || in_rng 238 239 b then 36 else if b =? 237 then 60
+         else if b =? 240 then 72 else if in_rng 241 243 b then 84 else 96
   | 24 => 0 | 36 => 24 | 84 => 36 | 48 => 24 | 60 => 24 | 72 => 36 | 96 => 36
   | _ => 12
   end.
@@ -86,28 +86,28 @@ Proof.
   - destruct l as [|b0 r]; [reflexivity|]. simpl in Hl.
     cbn [vf valid_utf8 guard next].
     destruct (b0 <=? 127) eqn:E0; cbn [orb andb]. { apply IH; lia. }
-    destruct (inr 194 223 b0) eqn:E1.
-    { assert (G: inr 194 244 b0 = true) by (unfold inr in *; lia); rewrite G; cbn [andb].
+    destruct (in_rng 194 223 b0) eqn:E1.
+    { assert (G: in_rng 194 244 b0 = true) by (unfold in_rng in *; lia); rewrite G; cbn [andb].
       destruct r as [|b1 r1]; cbn [vf guard next]; fin IH. }
     destruct (b0 =? 224) eqn:E2.
-    { assert (G: inr 194 244 b0 = true) by (unfold inr in *; lia); rewrite G; cbn [andb].
+    { assert (G: in_rng 194 244 b0 = true) by (unfold in_rng in *; lia); rewrite G; cbn [andb].
       destruct r as [|b1 [|b2 r2]]; cbn [vf guard next]; fin IH. }
-    destruct (inr 225 236 b0 || inr 238 239 b0) eqn:E3.
-    { assert (G: inr 194 244 b0 = true) by (unfold inr in *; lia); rewrite G; cbn [andb].
+    destruct (in_rng 225 236 b0 || in_rng 238 239 b0) eqn:E3.
+    { assert (G: in_rng 194 244 b0 = true) by (unfold in_rng in *; lia); rewrite G; cbn [andb].
       destruct r as [|b1 [|b2 r2]]; cbn [vf guard next]; fin IH. }
     destruct (b0 =? 237) eqn:E4.
-    { assert (G: inr 194 244 b0 = true) by (unfold inr in *; lia); rewrite G; cbn [andb].
+    { assert (G: in_rng 194 244 b0 = true) by (unfold in_rng in *; lia); rewrite G; cbn [andb].
       destruct r as [|b1 [|b2 r2]]; cbn [vf guard next]; fin IH. }
     destruct (b0 =? 240) eqn:E5.
-    { assert (G: inr 194 244 b0 = true) by (unfold inr in *; lia); rewrite G; cbn [andb].
+    { assert (G: in_rng 194 244 b0 = true) by (unfold in_rng in *; lia); rewrite G; cbn [andb].
       destruct r as [|b1 [|b2 [|b3 r3]]]; cbn [vf guard next]; fin IH. }
-    destruct (inr 241 243 b0) eqn:E6.
-    { assert (G: inr 194 244 b0 = true) by (unfold inr in *; lia); rewrite G; cbn [andb].
+    destruct (in_rng 241 243 b0) eqn:E6.
+    { assert (G: in_rng 194 244 b0 = true) by (unfold in_rng in *; lia); rewrite G; cbn [andb].
       destruct r as [|b1 [|b2 [|b3 r3]]]; cbn [vf guard next]; fin IH. }
     destruct (b0 =? 244) eqn:E7.
-    { assert (G: inr 194 244 b0 = true) by (unfold inr in *; lia); rewrite G; cbn [andb].
+    { assert (G: in_rng 194 244 b0 = true) by (unfold in_rng in *; lia); rewrite G; cbn [andb].
       destruct r as [|b1 [|b2 [|b3 r3]]]; cbn [vf guard next]; fin IH. }
-    assert (G: inr 194 244 b0 = false) by (unfold inr in *; lia). rewrite G. reflexivity.
+    assert (G: in_rng 194 244 b0 = false) by (unfold in_rng in *; lia). rewrite G. reflexivity.
 Qed.
 
 (* the DFA with the table from the source decides exactly Table 3-7 *)
